@@ -50,6 +50,35 @@ def mnemonic_matches(arch, lib, word):
     return l == a
 
 
+BRANCH_CLASSES = ('ppc_bc', 'ppc_bctr', 'ppc_bclr', 'ppc_bcctr')
+
+
+def branch_fields(cname, w):
+    """Conditional branches: the text form depends on the BO class and on the condition bit within the CR field, and so do the
+    known defects; keying them per (BO, BI mod 4) keeps a newly broken combination visible."""
+    if cname not in BRANCH_CLASSES:
+        return ''
+    return '/bo=%d/cond=%d' % ((w >> 21) & 31, (w >> 16) & 3)
+
+
+def branch_diff(x):
+    """Which fields of a conditional branch differ after the text round trip: the BO bits individually (they select the
+    text form), BI / displacement-or-extended-opcode / AA / LK as fields."""
+    parts = []
+    bo = [b for b in range(6, 11) if x & (1 << (31 - b))]
+    if bo:
+        parts.append('BO%s' % bo)
+    if x & 0x001f0000:
+        parts.append('BI')
+    if x & 0x0000fffc:
+        parts.append('BD')
+    if x & 2:
+        parts.append('AA')
+    if x & 1:
+        parts.append('LK')
+    return '+'.join(parts)
+
+
 def check_word(sh, w, tables, P, cls=None):
     wit = {'word': '%08x' % w}
     claims = [c for c in P.tab_mn if c.check(w)]
@@ -109,11 +138,12 @@ def check_word(sh, w, tables, P, cls=None):
         got = [struct.unpack('>L', x)[0] for x in r]
     except Exception as e:
         msg = re.sub(r"'[^']*'", "'_'", str(e))[:30]
-        sh.violation('asm-raises:%s/%s' % (type(e).__name__, cname), 'asm(%r) (from 0x%08x) raised %r' % (txt, w, e), wit)
+        sh.violation('asm-raises:%s/%s%s' % (type(e).__name__, cname, ('/%s/cond=%d' % (msg, (w >> 16) & 3)) if cname in BRANCH_CLASSES else ''),
+                     'asm(%r) (from 0x%08x) raised %r' % (txt, w, e), wit)
         return
     if got != [w]:
-        sh.violation('asm-differs/%s' % cname, 'asm(%r) = %s, expected 0x%08x (differs in bits %s)' % (
-            txt, ['0x%08x' % g for g in got], w, bits(w ^ got[0]) if got else '-'), wit)
+        sh.violation('asm-differs/%s%s' % (cname, ('/' + branch_diff(w ^ got[0])) if (got and cname in BRANCH_CLASSES) else ''),
+                     'asm(%r) = %s, expected 0x%08x (differs in bits %s)' % (txt, ['0x%08x' % g for g in got], w, bits(w ^ got[0]) if got else '-'), wit)
     if len(sh.samples) < 3:
         sh.sample({'word': '0x%08x' % w, 'class': cname, 'text': txt, 'architecture': arch})
 
